@@ -220,9 +220,25 @@ def st_sig(names):
                      st.one_of(st.just(b""), st.binary(min_size=1, max_size=40)), st.booleans())
 
 
+def _interleaved_jobs():
+    import hashlib as H
+    n1, n2 = gen.named("SECP160r1").n, gen.named("BRAINPOOLP256r1").n
+    d1, d2 = H.sha256(b"one").digest(), H.sha3_256(b"two").digest()
+    jobs = {
+        "a": lambda: [L.generate_k(n1, 12345, H.sha256, d1, retry_gen=1), L.generate_k(n2, 7, H.sha256, d1, extra_entropy=b"x")],
+        "b": lambda: [L.generate_k(n1, 54321, H.sha3_256, d2, retry_gen=2), L.generate_k(251, 9, H.sha256, d2)],
+    }
+    want = {"a": [RR.k(n1, 12345, H.sha256, d1, b"", 1), RR.k(n2, 7, H.sha256, d1, b"x", 0)],
+            "b": [RR.k(n1, 54321, H.sha3_256, d2, b"", 2), RR.k(251, 9, H.sha256, d2, b"", 0)]}
+    for k in jobs:
+        if jobs[k]() != want[k]:
+            raise RuntimeError("sequential generate_k differs from the reference: the ordinary units report that")
+    return jobs
+
+
 def units(tier, seed):
     q = tier == "quick"
-    out = []
+    out = [("interleaved", {"stride": 1, "max": 4000 if q else 40000})]
     top = 1200 if q else 4096
     for i in range(4):
         out.append(("small-orders", {"lo": 2, "hi": top, "shard": i, "nshards": 4}))
@@ -240,6 +256,12 @@ def units(tier, seed):
 
 
 def run_unit(ctx, name, **kw):
+    if name == "interleaved":
+        from .purity import interleaved_pure
+        RR.selfcheck()
+        jobs = _interleaved_jobs()
+        interleaved_pure(ctx, "rfc6979", [L], jobs, kw["stride"], max_schedules=kw["max"])
+        return
     try:
         RR.selfcheck()
     except AssertionError:
@@ -287,6 +309,10 @@ def run_unit(ctx, name, **kw):
 
 def replay(ctx, case):
     RR.selfcheck()
+    if case.get("kind") == "interleaved":
+        from .purity import interleaved_pure
+        interleaved_pure(ctx, "rfc6979", [L], _interleaved_jobs(), 1, max_schedules=4000)
+        return
     if case["kind"] == "k":
         check_k(ctx, case)
     else:
